@@ -22,6 +22,6 @@ Code it is anchored in: {', '.join(p['anchors']['files'])}
 REQUIREMENTS
 1. The change must need something specific to manifest: {hints[variant]}. Not something that every ordinary invocation would expose immediately. Keep it small (a few lines, at most two sites), plausible-looking, in jaq's own crates (not in tests, not in third-party code), no new dependencies, no `unsafe`, no cfg tricks, no randomness/time dependence.
 2. After the change: `cd {wt} && cargo build --workspace --offline` succeeds and the full suite `cd {wt} && cargo test --workspace --no-fail-fast --offline 2>&1 | grep -E "^test result|FAILED|panicked"` shows no failure (run it; if a test fails, pick a different change). The suite takes ~2–4 minutes.
-3. Write a demonstration that FAILS with your change and PASSES without it: a shell script `demo.sh` that takes the path of a jaq binary as $1 (build it with `cargo build --offline -p jaq`; binary at {wt}/target/debug/jaq) and exits 0 when the property holds on your chosen input and non-zero when it is violated (compare jaq's actual output/exit status with the correct expected one, which you state). Verify both directions yourself: run demo.sh against the changed binary (must fail), then `git stash`, rebuild, run against the original binary (must pass), then `git stash pop` and rebuild.
+3. Write a demonstration that FAILS with your change and PASSES without it: a shell script `demo.sh` that takes the path of a jaq binary as $1 (build it with `cargo build --offline -p jaq`; binary at {wt}/target/debug/jaq) and exits 0 when the property holds on your chosen input and non-zero when it is violated (compare jaq's actual output/exit status with the correct expected one, which you state). Verify both directions yourself: run demo.sh against the changed binary (must fail), then save your change with `git -C {wt} diff > {wt}/out/patch.diff` and remove it with `git -C {wt} apply -R {wt}/out/patch.diff`, rebuild, run against the original binary (must pass), then re-apply with `git -C {wt} apply {wt}/out/patch.diff` and rebuild. Do NOT use `git stash` (the stash is shared with other worktrees that other agents use concurrently).
 4. Deliver in {wt}/out/ : `patch.diff` (output of `git -C {wt} diff` for the source change only — not the out/ directory), `demo.sh`, and `meta.json` with keys: "property" ("{p['id']}"), "summary" (one sentence: what was changed), "needs" (what specific input/sequence/position is needed for it to manifest and why ordinary use and the existing tests miss it), "expected" and "actual" (outputs on the demo input), "files" (list of changed files), "ran" (the commands you ran and their outcomes: build ok, tests ok, demo fails with change, demo passes without).
 Leave the worktree with your change applied. Your final message: the meta.json content and the diff, nothing else.""")
